@@ -93,6 +93,9 @@ def token_language_obligations(pr, m):
             continue
         sv = z3.Solver()
         sv.set('timeout', 20000)
+        # compared up to trailing blanks: every token regex starts with \\s*, so a token that also swallows the blanks after
+        # it tokenises every text the same way
+        CODE, SPEC = z3.Concat(CODE, ws), z3.Concat(SPEC, ws)
         sv.add(z3.InRe(x, CODE) != z3.InRe(x, SPEC))
         t0 = time.time()
         r = sv.check()
